@@ -15,7 +15,10 @@ the lines it is located at).  For every enumerated text:
                every declaration, member order, docs, lines), and
                Schema.expanded_attrs agrees with an iterative expansion.
 
-Enumerated spaces (all exhaustive, no sampling) are listed in ctx.rule.
+Enumerated spaces (all exhaustive, no sampling) are listed in ctx.rule.  Spelling is a dimension of its own: a word
+can be written bare (IDENT) or quoted (STRING), the grammar admits both for enum keys, defaults and facet values, and
+every rule that compares words (duplicate keyword, default is a keyword, alias / use / child targets ...) must
+compare the word, not its spelling; space (f) writes every word token of a derivation corpus in its other spelling.
 """
 import hashlib
 import os
@@ -35,14 +38,16 @@ META = dict(
     category=LEVEL,
     technique="exhaustive bounded enumeration over the schema language (all token streams, viable-prefix closure, "
               "grammar derivations, every 1-token deviation, every rule broken at every site of the real schema, "
-              "scaling families), differential against an independent reference parser/validator",
+              "scaling families, bare/quoted spelling variants), differential against an independent reference "
+              "parser/validator",
     text="parse_string is a pure function of a text; the claim is totality plus rule soundness for all texts.  All "
          "token streams of length <=4 (5) over a 28-token alphabet, all 1-token extensions of every viable prefix up "
          "to length 6 (7) over 52 tokens, all strings of <=5 (6) characters over 12 lexically critical characters in "
          "3 contexts, ~90k grammar derivations (every type x arity x default x facet form in every declaration "
          "context, member pairs, all 512 use-graphs on 3 groups, declaration triples) in two layouts, every 1-token "
          "substitution/insertion/deletion of a derivation corpus, every documented rule broken at every applicable "
-         "site of the real mjcf.schema, and doubling families up to 4096 for every construct that repeats.  Each text "
+         "site of the real mjcf.schema, doubling families up to 4096 for every construct that repeats, and every word "
+         "token of ~8k derivation texts respelled bare <-> quoted (the same word in both spellings).  Each text "
          "is judged by a reference that shares no code with the tree.  Exhaustive within the bounds: the right level "
          "for a pure function of a short text.",
     note="Trusted base: the reference (_c41_ref.py) and its reading of the grammar docstring / mjcf.schema syntax "
@@ -59,6 +64,7 @@ _S = None            # the tree's mjcf_schema module (loaded in run(), inherited
 _TMP = None          # directory receiving digests of non-trivial cases
 _REAL = None         # (Lines, sites) of the real schema
 _CORPUS = {}         # name -> list of token lists (deviation bases)
+_SPELL = []          # (head, focus, tail, order) token lists: bases of the spelling-variant space
 
 
 def load_impl():
@@ -336,6 +342,24 @@ def _dev2(st, name, idx, k, nk):
             judge(st, t, space)
 
 
+def _spell(st, k, nk):
+    """Space (f): the word tokens of a base text written in their other spelling (bare <-> quoted)."""
+    seen = set()
+    for j in range(k, len(_SPELL), nk):
+        head, focus, tail, order = _SPELL[j]
+        space = "f:respelling<=%d" % order
+        h = " ".join(head) + " " if head else ""
+        tl = " " + " ".join(tail) if tail else ""
+        st.part.add("spelling_bases")
+        for toks in G.respellings(focus, order):
+            t = h + " ".join(toks) + tl
+            if t in seen:
+                continue
+            seen.add(t)
+            ref = judge(st, t, space)
+            st.part.add("spelling_variants_valid" if ref.ok else "spelling_variants_invalid")
+
+
 def _rules(st, k, nk):
     L, sites = _REAL
     for j in range(k, len(sites), nk):
@@ -421,6 +445,8 @@ def _do(st, job, kind):
             _dev2(st, *job[1:])
         elif kind == "rules":
             _rules(st, job[1], job[2])
+        elif kind == "spell":
+            _spell(st, job[1], job[2])
         elif kind == "family":
             _family_text(st, job[1], job[2])
         elif kind == "rfamily":
@@ -497,7 +523,7 @@ def run(ctx):
 
 
 def _run(ctx):
-    global _REAL, _CORPUS
+    global _REAL, _CORPUS, _SPELL
     thorough = ctx.thorough
     jobs = []
 
@@ -568,6 +594,12 @@ def _run(ctx):
     else:
         ctx.extra["real_schema_invalid_for_reference"] = base.rules[:5]
 
+    # (f) spelling variants: every word token of a base text in its other spelling
+    _SPELL = list(G.spelling_bases(thorough))
+    nsp = ctx.q(32, 128)
+    for k in range(nsp):
+        jobs.append(("spell", k, nsp))
+
     # (e) scaling
     top = 4096
     sizes = [1 << i for i in range(0, 13)]
@@ -615,6 +647,7 @@ def _run(ctx):
     ctx.extra["reference_rule_hits"] = hits
     ctx.extra["viable_prefixes_len3"] = len(pre)
     ctx.extra["deviation_base_texts"] = len(corpus)
+    ctx.extra["spelling_base_texts"] = len(_SPELL)
     ctx.extra["tree"] = build.REPO
     ctx.rule = (
         "(a) every token stream of length <=%d over the 28-token core alphabet; every 1-token extension of every viable "
@@ -628,11 +661,18 @@ def _run(ctx):
         "insertion and deletion of one token (52-token alphabet, line break and comment are tokens; the fixed supporting "
         "declarations are deviated once, not per text) on %d derivation texts, every pair of such deviations (28 tokens) on %d small texts; (d) the real mjcf.schema and every "
         "documented rule broken once at every%s applicable site of it (%d texts); (e) doubling families 1..4096 (use "
-        "chains/rings 1..2048 under the default recursion limit) and use-diamonds of depth < %d.  A case is non-trivial "
+        "chains/rings 1..2048 under the default recursion limit) and use-diamonds of depth < %d; (f) spelling variants: a word "
+        "may be written bare (IDENT) or quoted (STRING) and the grammar admits both for enum keys, defaults and facet values: "
+        "every single word token%s written in its other spelling, in all <=3-declaration sequences and the hand-minimised "
+        "texts, in every element/group with <=%d member(s) x every header, and on the attribute line of every attribute form "
+        "(arities %s) in element context (%d base texts); the rule-breaking edits of (d) repeat an enum keyword in both "
+        "spellings.  A case is non-trivial "
         "when the reference reads at least 4 tokens before its verdict (not rejected inside the first declaration "
         "header); distinct = distinct text (64-bit digest), counted over all spaces together."
         % (Lb, Ng, K, "".join(G.CHARS), len(G.MINIMAL), len(corpus), len(small), "" if thorough else " 16th",
-           len(_REAL[1]) if _REAL else 0, ctx.q(11, 15)))
+           len(_REAL[1]) if _REAL else 0, ctx.q(11, 15), " (thorough: and every pair of word tokens of the declaration "
+           "sequences / minimised texts)" if thorough else "", ctx.q(1, 2),
+           "all 12" if thorough else "/".join(repr(a) for a in G.SPELLING_ARITIES), len(_SPELL)))
     ctx.extra["cpu_limit_per_text_s"] = CPU_LIMIT_S
     ctx.assumptions = ["reference reading of points the documentation leaves open: " + u for u in R.UNSPECIFIED] + [
         "parse_string(text, path) is called with a str; recursion limit is the interpreter default (1000), scaling "
